@@ -51,10 +51,11 @@ def build_datasets(ck):
     if ck.tier == "thorough":
         variants += [("Godd", (1, 3, 2)), ("G2", (2, 2, 2)), ("G4b", (4, 4, 4)), ("Gmixb", (2, 4, 6))]
     variants += [("Gweak", (4, 4, 2))]       # not part of the rotation: used by the demanding-threshold runs only
+    variants += [("Gmany", tuple([2, 4] * 130))]      # 260 samples (more than any byte-sized sample counter): its own runs only
     for i, (name, pl) in enumerate(variants):
         d = os.path.join(root, name)
         edge = name == "Gedge"
-        man = datasets.make_population(d, seed=ck.seed * 101 + i, ploidies=pl, name=name,
+        man = datasets.make_population(d, seed=ck.seed * 101 + i, ploidies=pl, name=name, n_samples=len(pl), depth=12 if len(pl) <= 3 else 5,
                                        deep_sample=1 if name in ("G4b",) else None,
                                        plan=datasets.EDGE_PLAN if edge else datasets.WEAK_PLAN if name == "Gweak" else None,
                                        lower=[("CTG1", 95, 130), ("CTG2", 0, 10)] if edge else ())
@@ -82,7 +83,7 @@ def build_datasets(ck):
         with open(man["pedigree"], "w") as fh:
             fh.write("%s\t.\t.\n%s\t%s\t%s\n%s\t.\t.\n" % (names[0], names[1], names[0], names[2], names[2]))
         tau = {(4, 4, 4): [(2, 2), (2, 2), (2, 2)], (2, 4, 6): [(1, 1), (1, 3), (3, 3)], (1, 3, 2): [(1, 0), (1, 2), (1, 1)],
-               (2, 2, 2): [(1, 1), (1, 1), (1, 1)], (4, 4, 2): [(2, 2), (2, 2), (1, 1)]}[tuple(pl)]
+               (2, 2, 2): [(1, 1), (1, 1), (1, 1)], (4, 4, 2): [(2, 2), (2, 2), (1, 1)]}.get(tuple(pl), [(1, 1)] * len(pl))
         man["tau_file"] = os.path.join(d, "tau.txt")
         with open(man["tau_file"], "w") as fh:
             for n, (a, b) in zip(names, tau):
@@ -112,7 +113,7 @@ def plan_runs(ck, configs, dsets):
     rnd = random.Random(ck.seed + 7)
     pairs = sorted({(c["prog"], tuple(sorted(c["report"]))) for c in configs})
     rnd.shuffle(pairs)
-    names = sorted(n for n in dsets if n != "Gweak")
+    names = sorted(n for n in dsets if n not in ("Gweak", "Gmany"))
     mcmc = [("300", "100"), ("200", "50"), ("600", "300")]
     runs = []
     reps = 1 if ck.tier == "quick" else 2
@@ -216,6 +217,22 @@ def plan_runs(ck, configs, dsets):
         runs.append({"prog": "assemble", "report": wrep[k], "ds": man["name"], "id": "w%04d" % k, "pool": None,
                      "snv_vcf": man["snv_vcf"], "ref": man["ref"], "ploidy": {s["name"]: s["ploidy"] for s in man["samples"]},
                      "argv": argv + report_args(wrep[k])})
+    # 260 samples in one run (NS, AN, AC, AFP, ... summed over more samples than a byte can count)
+    man = dsets["Gmany"]
+    for k, prog in enumerate(["call-exact", "assemble"] if ck.tier == "quick" else ["call-exact", "assemble", "call"]):
+        argv = ["--bam"] + [s["bam"] for s in man["samples"]] + ["--ploidy", man["ploidy_file"], "--reference", man["ref"]]
+        r = {"prog": prog, "report": [["AFP", "ACP"], ["AFP"], ["AOP"]][k], "ds": man["name"], "id": "m%04d" % k, "pool": None, "ref": man["ref"],
+             "ploidy": {s["name"]: s["ploidy"] for s in man["samples"]}}
+        if prog != "call-exact":
+            argv += ["--mcmc-steps", "120", "--mcmc-burn", "40", "--mcmc-seed", "9"]
+        if prog == "assemble":
+            argv += ["--targets", man["bed_run"], "--variants", man["snv_vcf"]]
+            r["snv_vcf"] = man["snv_vcf"]
+        else:
+            argv += ["--haplotypes", man["hap_vcf"]]
+            r["hap_vcf"] = man["hap_vcf"]
+        r["argv"] = argv + report_args(r["report"])
+        runs.append(r)
     # the project-wide ploidy file (lists more samples than are analysed)
     for k, prog in enumerate(["assemble", "call-exact", "call"] if ck.tier == "quick" else ["assemble", "call-exact", "call", "assemble", "call"]):
         man = dsets[names[k % len(names)]]
